@@ -62,32 +62,11 @@ pub fn sentences(g: &AstG, rng: &mut Rng, n: usize) -> Vec<Sentence> {
     out
 }
 
-pub fn emit(krate: &mut Crate, g: &AstG, sents: &[Sentence], rep: &mut Rep, group: usize) {
-    let text = g.text();
-    let ag = g.desugar();
-    let countable = ag.reduced() && ag.glr_scope();
-    for glr in [false, true] {
-        if glr && !countable {
-            // cyclic / epsilon-ambiguous expansion: forests may be cyclic or huge (outside C03's scope)
-            rep.count("glr_skipped_out_of_scope", 1);
-            continue;
-        }
-        for loc in [false, true] {
-            let m = format!("g{}", krate.modules.len());
-            let spec = SetSpec { glr, builder: 0, loc_info: loc, ps: if glr { None } else { Some(true) }, ..Default::default() };
-            let c = generate_into(&krate.src(), &m, &text, &spec);
-            rep.count("evaluations", 1);
-            if !c.outcome.is_ok() {
-                rep.count("rejected_by_compiler", 1);
-                for sfx in [".rustemo", ".rs", "_actions.rs"] {
-                    let _ = std::fs::remove_file(krate.src().join(format!("{}{}", m, sfx)));
-                }
-                continue;
-            }
-            krate.extra_mods.push(format!("{}_actions", m));
-            let parser = format!("{}Parser", pascal(&m));
+/// Checking code of one module: every sentence with a fresh parser, and (LR) with one reused parser object.
+pub fn check_body(m: &str, inputs: &[String], glr: bool) -> String {
+    let parser = format!("{}Parser", pascal(m));
             let mut body = String::new();
-            writeln!(body, "    let inputs: &[&str] = &[{}];", sents.iter().map(|s| format!("{:?}", s.input)).collect::<Vec<_>>().join(", ")).unwrap();
+            writeln!(body, "    let inputs: &[&str] = &[{}];", inputs.iter().map(|s| format!("{:?}", s)).collect::<Vec<_>>().join(", ")).unwrap();
             if glr {
                 writeln!(
                     body,
@@ -113,10 +92,49 @@ pub fn emit(krate: &mut Crate, g: &AstG, sents: &[Sentence], rep: &mut Rep, grou
             Err(e) => format!("ERR {{}}", e.to_pos_str().replace('\n', " ")),
         }});
         println!("P {{}} {{}}", i, r.unwrap_or("PANIC".to_string()));
+    }}
+    // the same parser object reused, with a failing parse (valid prefix, then garbage) before each sentence
+    let shared = {parser}::new();
+    for (i, input) in inputs.iter().enumerate() {{
+        let bad: &'static str = Box::leak(format!("{{}} \u{{a7}}", input).into_boxed_str());
+        let _ = std::panic::catch_unwind(std::panic::AssertUnwindSafe(|| shared.parse(bad).is_ok()));
+        let r = std::panic::catch_unwind(std::panic::AssertUnwindSafe(|| match shared.parse(input) {{
+            Ok(t) => format!("OK 1 {{:?}}", t),
+            Err(e) => format!("ERR {{}}", e.to_pos_str().replace('\n', " ")),
+        }}));
+        println!("R {{}} {{}}", i, r.unwrap_or("PANIC".to_string()));
     }}"#
                 )
                 .unwrap();
             }
+    body
+}
+
+pub fn emit(krate: &mut Crate, g: &AstG, sents: &[Sentence], rep: &mut Rep, group: usize) {
+    let text = g.text();
+    let ag = g.desugar();
+    let countable = ag.reduced() && ag.glr_scope();
+    for glr in [false, true] {
+        if glr && !countable {
+            // cyclic / epsilon-ambiguous expansion: forests may be cyclic or huge (outside C03's scope)
+            rep.count("glr_skipped_out_of_scope", 1);
+            continue;
+        }
+        for loc in [false, true] {
+            let m = format!("g{}", krate.modules.len());
+            let spec = SetSpec { glr, builder: 0, loc_info: loc, ps: if glr { None } else { Some(true) }, ..Default::default() };
+            let c = generate_into(&krate.src(), &m, &text, &spec);
+            rep.count("evaluations", 1);
+            if !c.outcome.is_ok() {
+                rep.count("rejected_by_compiler", 1);
+                for sfx in [".rustemo", ".rs", "_actions.rs"] {
+                    let _ = std::fs::remove_file(krate.src().join(format!("{}{}", m, sfx)));
+                }
+                continue;
+            }
+            krate.extra_mods.push(format!("{}_actions", m));
+            let inputs: Vec<String> = sents.iter().map(|s| s.input.clone()).collect();
+            let body = check_body(&m, &inputs, glr);
             krate.modules.push(Module {
                 name: m.clone(),
                 check_fn: wrap_check_fn(&m, &body),
@@ -145,15 +163,8 @@ pub fn main(a: &Args) {
         let c = generate_into(&krate.src(), &m, text, &spec);
         if c.outcome.is_ok() {
             krate.extra_mods.push("g0_actions".into());
-            let parser = "G0Parser";
             let inputs: Vec<String> = info["sentences"].as_array().unwrap().iter().map(|s| s["input"].as_str().unwrap().to_string()).collect();
-            let mut body = String::new();
-            writeln!(body, "    let inputs: &[&str] = &[{}];", inputs.iter().map(|s| format!("{:?}", s)).collect::<Vec<_>>().join(", ")).unwrap();
-            if spec.glr {
-                writeln!(body, "    for (i, input) in inputs.iter().enumerate() {{ let r = std::panic::catch_unwind(|| match {parser}::new().parse(input) {{ Ok(f) => {{ let n = f.solutions(); let mut b = DefaultBuilder::new(); format!(\"OK {{}} {{:?}}\", n, f.get_first_tree().unwrap().build(&mut b)) }} Err(e) => format!(\"ERR {{}}\", e.to_pos_str().replace('\\n', \" \")) }}); println!(\"P {{}} {{}}\", i, r.unwrap_or(\"PANIC\".to_string())); }}").unwrap();
-            } else {
-                writeln!(body, "    for (i, input) in inputs.iter().enumerate() {{ let r = std::panic::catch_unwind(|| match {parser}::new().parse(input) {{ Ok(t) => format!(\"OK 1 {{:?}}\", t), Err(e) => format!(\"ERR {{}}\", e.to_pos_str().replace('\\n', \" \")) }}); println!(\"P {{}} {{}}\", i, r.unwrap_or(\"PANIC\".to_string())); }}").unwrap();
-            }
+            let body = check_body(&m, &inputs, spec.glr);
             krate.modules.push(Module { name: m.clone(), check_fn: wrap_check_fn(&m, &body), expected: vec![], info: info.clone() });
         }
     } else {
